@@ -3,6 +3,7 @@ import Comdex.Model.DutchPrice
 import Comdex.Model.DutchV2
 import Comdex.Model.DutchV1
 import Comdex.Model.DutchV1Lend
+import Comdex.Model.DutchV1LendBook
 /-! Driver plug-in for the Dutch-auction models (C10).
 
 Pure price-function lines (real exported helpers / real block hooks on synthetic records):
@@ -31,7 +32,9 @@ First generation, liquidated borrow (x/auction dutch_lend.go):
   dutch.l1.begin <envL> <rec1> <balances> <misc>
   dutch.l1.bid   who slice lendReserveDebtBalance  <outcome> <rec1> <balances> <misc>
   dutch.l1.tick  now twaC actC twaD actD  <ok|panic> <rec1> <balances> <misc>
-  (`pool` = pool account + lend module account; extra monitors proceeds_forwarded, lend_bonus_stranded)
+  dutch.l1.bid   who slice lendReserveDebtBalance twaC actC twaD actD  <outcome> <rec1> <balances> <misc> <book>
+  (every dutch.l1 line ends with <book> = `lv=in:out:upd|none;borrow=in:out:liq|none;int=<raw>;trk=<raw>;ctok=poolCDebt:poolCColl:ownerCColl`;
+   `pool` = pool module account, `lendres` = lend module account; extra monitors proceeds_forwarded, lend_bonus_stranded, lend_close_books)
 Monitors (on REAL values): pay_le_target receive_le_collateral books_exact (+ `_after_d7` variants, see `finish`) posted_price
 price_monotone price_in_range price_below_end_at_T
 price_in_range_slack close_distributes leftover_to_owner bid_refused reserve_draw_skipped limit_fill_overcharge start_price start_record
@@ -82,6 +85,8 @@ structure V1St where
 /-! ### first generation, liquidated borrows -/
 structure L1St where
   e : DutchV1Lend.Env := {}
+  r : DutchV1LendBook.Rates := {}
+  k : DutchV1LendBook.Book := {}
   s : DutchV1Lend.St := {}
   prev : Option Obs1 := none
   begin_ : Option Obs1 := none
@@ -501,10 +506,72 @@ def modelObsL (v : L1St) (o : Obs1) : Obs1 :=
       | none => (n, 0, 0),
     net := none, supply := 0 }
 
-def finishL (v : L1St) (seq : String) (isBid : Bool) (okM : Bool) (outcome : String) (o : Obs1) (redep : Int) (extra : List String) : L1St × List String :=
+/-- the lend-side records printed with every `dutch.l1.*` line -/
+structure BookObs where
+  lv : Option DutchV1LendBook.LV
+  borrow : Option (Int × Int)
+  liquidated : Bool
+  intAcc : Int
+  resInt : Int
+  cPoolDebt : Int
+  cPoolColl : Int
+  cOwnerColl : Int
+  deriving BEq, Repr
+
+def parseLV (s : String) : Option (Option DutchV1LendBook.LV) :=
+  if s = "none" then some none else
+  match s.splitOn ":" with
+  | [a, b, c] => do
+    let a ← parseInt? a
+    let b ← parseInt? b
+    let c ← parseInt? c
+    pure (some { amtIn := a, amtOut := b, updOut := c })
+  | _ => none
+
+def parseBorrowL (s : String) : Option (Option (Int × Int) × Bool) :=
+  if s = "none" then some (none, true) else
+  match s.splitOn ":" with
+  | [a, b, c] => do
+    let a ← parseInt? a
+    let b ← parseInt? b
+    pure (some (a, b), c = "1")
+  | _ => none
+
+def parseBookL (s : String) : Option BookObs := do
+  let fs := kv s
+  let lv ← (field? fs "lv") >>= parseLV
+  let (borrow, liq) ← (field? fs "borrow") >>= parseBorrowL
+  let int ← getI fs "int"
+  let trk ← getI fs "trk"
+  let ct ← field? fs "ctok"
+  match ct.splitOn ":" with
+  | [a, b, c] =>
+    let a ← parseInt? a
+    let b ← parseInt? b
+    let c ← parseInt? c
+    pure { lv := lv, borrow := borrow, liquidated := liq, intAcc := int, resInt := trk, cPoolDebt := a, cPoolColl := b, cOwnerColl := c }
+  | _ => none
+
+def bookOfObs (k : DutchV1LendBook.Book) (o : BookObs) : DutchV1LendBook.Book :=
+  { k with lv := o.lv, borrow := o.borrow, liquidated := o.liquidated, intAcc := o.intAcc, resInt := o.resInt,
+           cPoolDebt := o.cPoolDebt, cPoolColl := o.cPoolColl, cOwnerColl := o.cOwnerColl }
+
+def obsOfBook (k : DutchV1LendBook.Book) : BookObs :=
+  { lv := k.lv, borrow := k.borrow, liquidated := if k.borrow.isSome then k.liquidated else true, intAcc := k.intAcc, resInt := k.resInt,
+    cPoolDebt := k.cPoolDebt, cPoolColl := k.cPoolColl, cOwnerColl := k.cOwnerColl }
+
+def showBookL (o : BookObs) : String :=
+  let lv := match o.lv with | none => "none" | some l => s!"{l.amtIn}:{l.amtOut}:{l.updOut}"
+  let bo := match o.borrow with | none => "none" | some (a, b) => s!"{a}:{b}:{if o.liquidated then 1 else 0}"
+  s!"lv={lv};borrow={bo};int={o.intAcc};trk={o.resInt};ctok={o.cPoolDebt}:{o.cPoolColl}:{o.cOwnerColl}"
+
+def finishL (v : L1St) (seq : String) (isBid : Bool) (okM : Bool) (outcome : String) (o : Obs1) (bo : BookObs)
+    (kPrev : DutchV1LendBook.Book) (extra : List String) : L1St × List String :=
   let mo := modelObsL v o
+  let mb := obsOfBook v.k
   let d1 := if isBid ∧ okM != (outcome = "ok") then [s!"DIFF\t{seq}\toutcome model={okM} impl={outcome}"] else []
   let d2 := if sameObs1 mo o then [] else [s!"DIFF\t{seq}\tmodel={showObs1 mo}\timpl={showObs1 o}"]
+  let d3 := if mb == bo then [] else [s!"DIFF\t{seq}\tbook model={showBookL mb}\timpl={showBookL bo}"]
   let prev := v.prev.getD o
   let (paidNow, recvNow) := ["b1", "b2", "b3", "b4"].foldl (fun (p, r) n =>
     let (c0, d0) := bal1 prev n
@@ -514,12 +581,15 @@ def finishL (v : L1St) (seq : String) (isBid : Bool) (okM : Bool) (outcome : Str
   let realRecv := v.realRecv + recvNow
   let m1 := mon seq "pay_le_target" (decide (realPaid ≤ v.e.target))
   let m2 := mon seq "receive_le_collateral" (decide (realRecv ≤ v.e.deposit))
-  -- the proceeds never rest in the module account: every unit paid is with the lending side after the same message
+  -- the proceeds never rest in the module account: every unit paid is with the lending side (pool + reserve) after the same message
   let (aC, aD) := bal1 o "auction"
+  let lendSide (x : Obs1) : Int := (bal1 x "pool").2 + (bal1 x "lendres").2
   let mD := match v.begin_ with
-    | some b0 => mon seq "proceeds_forwarded" (decide (aD = v.baseD) && decide ((bal1 o "pool").2 - (bal1 b0 "pool").2 = realPaid))
+    | some b0 => mon seq "proceeds_forwarded" (decide (aD = v.baseD) && decide (lendSide o - lendSide b0 = realPaid))
     | none => []
   let closing := prev.auc.isSome ∧ o.auc.isNone
+  -- what the close moved on the lending side, on REAL balances: collateral pool → auction module (follow-up auction) and pool → reserve
+  let redep := if closing then v.k.redep - kPrev.redep else 0
   let m3 :=
     if closing then
       match v.begin_ with
@@ -532,23 +602,46 @@ def finishL (v : L1St) (seq : String) (isBid : Bool) (okM : Bool) (outcome : Str
         let explained := decide (rest = v.e.deposit - v.e.coll0 - v.s.bonusPaid)
         -- the unsold collateral goes to the borrower recorded at seizure ("owner"), by account
         let toOwner := decide (ownerGot = v.e.coll0 - (realRecv - v.s.bonusPaid))
+        -- lend side of the close on REAL balances and records (close_distributes_all for this generation):
+        --   reserve: + interest share − what it paid for a sold-out auction (debt), + re-liquidation penalty (collateral)
+        --   pool: collateral − (follow-up deposit + penalty); cTokens of the debt asset minted = ⌊interest − reserve share⌋
+        let dRes := (bal1 o "lendres").2 - (bal1 prev "lendres").2
+        let dPoolC := (bal1 o "pool").1 - (bal1 prev "pool").1
+        let dResC := (bal1 o "lendres").1 - (bal1 prev "lendres").1
+        let kb := obsOfBook kPrev
+        let ri := if Dec.truncateInt kb.resInt > 0 then Dec.truncateInt kb.resInt else 0
+        let mint := if Dec.truncateInt (Dec.sub kb.intAcc kb.resInt) > 0 then Dec.truncateInt (Dec.sub kb.intAcc kb.resInt) else 0
+        let required := if realPaid ≥ v.e.target then 0 else v.e.target - realPaid
+        let lendOk := decide (dRes = ri - required) && decide (bo.cPoolDebt - kb.cPoolDebt = mint) &&
+          decide (dPoolC + dResC = -((aC - (bal1 prev "auction").1) + (bal1 o "owner").1 - (bal1 prev "owner").1 + recvNow)) &&
+          decide (0 ≤ dResC) &&
+          -- the position afterwards: deleted with the cTokens returned, restored with the locked vault's amounts, or re-liquidated
+          (match kb.lv, bo.lv, bo.borrow with
+           | some l0, none, none => decide (bo.cOwnerColl - kb.cOwnerColl = (if DutchV1LendBook.max0 (l0.amtOut - v.e.target) = 0 then l0.amtIn else 0))
+           | some l0, none, some (bi, bout) => decide (bi = l0.amtIn) && decide (bout = DutchV1LendBook.max0 (l0.amtOut - v.e.target)) && !bo.liquidated &&
+               decide (bo.cOwnerColl = kb.cOwnerColl)
+           | some l0, some l1, _ => decide (l1.amtOut = DutchV1LendBook.max0 (l0.amtOut - v.e.target)) && decide (l1.amtIn ≤ l0.amtIn) &&
+               decide (kb.cPoolColl - bo.cPoolColl = l0.amtIn - l1.amtIn ∨ l1.amtIn = 0)
+           | none, _, _ => false)
         mon seq "close_distributes" (conserved && explained) ++ mon seq "leftover_to_owner" toOwner ++
-          mon seq "lend_bonus_stranded" (decide (rest = 0))
+          mon seq "lend_bonus_stranded" (decide (rest = 0)) ++ mon seq "lend_close_books" lendOk
     else []
   let v' := { v with prev := some o, realPaid := realPaid, realRecv := realRecv, baseC := if closing then v.baseC + redep else v.baseC }
-  let v' := if d2.isEmpty then v' else { v' with s := { v'.s with auc := o.auc, bank := bankOf1 o } }
-  (v', d1 ++ d2 ++ m1 ++ m2 ++ mD ++ m3 ++ extra)
+  let v' := if d2.isEmpty ∧ d3.isEmpty then v' else { v' with s := { v'.s with auc := o.auc, bank := bankOf1 o }, k := bookOfObs v'.k bo }
+  (v', d1 ++ d2 ++ d3 ++ m1 ++ m2 ++ mD ++ m3 ++ extra)
 
 def handleL1 (v : L1St) (seq : String) (f : List String) : L1St × List String :=
   match f with
-  | ["dutch.l1.begin", env, r, b, _] =>
-    match parseEnvL env, parseObsL r b with
-    | some e, some o =>
+  | ["dutch.l1.begin", env, r, b, _, book] =>
+    match parseEnvL env, parseObsL r b, parseBookL book with
+    | some e, some o, some bo =>
       match o.auc with
       | none => (v, [s!"BAD\t{seq}\tl1 begin without auction"])
       | some a =>
         let s0 := DutchV1Lend.initSt e a (bankOf1 o)
-        let v' : L1St := { e := e, s := s0, prev := some o, begin_ := some o, baseC := s0.otherC, baseD := s0.otherD }
+        let fs := kv env
+        let rates : DutchV1LendBook.Rates := { ltv := (getI fs "ltv").getD 0, pen := (getI fs "pen").getD 0, thr := (getI fs "thr").getD 0 }
+        let v' : L1St := { e := e, r := rates, k := bookOfObs {} bo, s := s0, prev := some o, begin_ := some o, baseC := s0.otherC, baseD := s0.otherD }
         let twaC := (getI (kv env) "twaC").getD 0
         let okStart := match DutchPrice.startPrice twaC e.buffer with
           | .ok p0 => decide (a.price = p0) && decide (a.init = p0) &&
@@ -558,23 +651,20 @@ def handleL1 (v : L1St) (seq : String) (f : List String) : L1St × List String :
         let okRec := decide (a.outCur = e.coll0) && decide (a.inCur = 0) && decide (a.end_ = a.start + e.T) &&
           decide (e.coll0 + (e.coll0 * e.bonus) / Dec.P ≤ e.deposit)
         (v', mon seq "start_price" okStart ++ mon seq "start_record" okRec)
-    | _, _ => (v, [s!"BAD\t{seq}\tl1 begin"])
-  | ["dutch.l1.bid", who, amt, res, o, r, b, _] =>
-    match bidderNo who, parseInt? amt, parseInt? res, parseObsL r b with
-    | some w, some amt, some res, some obs =>
-      -- collateral handed to the module by an immediate re-liquidation of the same borrow (external value, REAL balances)
-      let redep := match v.prev with
-        | some p => if obs.auc.isNone ∧ p.auc.isSome then (bal1 p "pool").1 - (bal1 obs "pool").1 else 0
-        | none => 0
-      let r := DutchV1Lend.bidE v.e v.s w amt redep res
-      let okM := match r with | .ok _ => true | .error _ => false
+    | _, _, _ => (v, [s!"BAD\t{seq}\tl1 begin"])
+  | ["dutch.l1.bid", who, amt, _res, twaC, actC, twaD, actD, o, r, b, _, book] =>
+    match bidderNo who, parseInt? amt, parseInt? twaC, parseBool? actC, parseInt? twaD, parseBool? actD, parseObsL r b, parseBookL book with
+    | some w, some amt, some twaC, some actC, some twaD, some actD, some obs, some bo =>
+      let x : DutchV1LendBook.Ext := { twaC := twaC, actC := actC, twaD := twaD, actD := actD }
+      let res := DutchV1LendBook.bidE v.e v.r { s := v.s, k := v.k } w amt x
+      let okM := match res with | .ok _ => true | .error _ => false
       let refused := if okM && (o == "err") then [s!"MON\t{seq}\tbid_refused"] else []
-      let v1 := { v with s := match r with | .ok s' => s' | .error _ => v.s }
-      finishL v1 seq true okM o obs redep refused
-    | _, _, _, _ => (v, [s!"BAD\t{seq}\tl1 bid"])
-  | ["dutch.l1.tick", now, twaC, actC, twaD, actD, o, r, b, _] =>
-    match parseInt? now, parseInt? twaC, parseBool? actC, parseInt? twaD, parseBool? actD, parseObsL r b with
-    | some now, some twaC, some actC, some twaD, some actD, some obs =>
+      let v1 := match res with | .ok s' => { v with s := s'.s, k := s'.k } | .error _ => v
+      finishL v1 seq true okM o obs bo v.k refused
+    | _, _, _, _, _, _, _, _ => (v, [s!"BAD\t{seq}\tl1 bid"])
+  | ["dutch.l1.tick", now, twaC, actC, twaD, actD, o, r, b, _, book] =>
+    match parseInt? now, parseInt? twaC, parseBool? actC, parseInt? twaD, parseBool? actD, parseObsL r b, parseBookL book with
+    | some now, some twaC, some actC, some twaD, some actD, some obs, some bo =>
       let s' := DutchV1Lend.step v.e v.s (.tick now twaC actC twaD actD)
       let prevRec := v.prev.bind (·.auc)
       let e1 : DutchV1.Env := { T := v.e.T, buffer := v.e.buffer, cusp := v.e.cusp }
@@ -582,9 +672,9 @@ def handleL1 (v : L1St) (seq : String) (f : List String) : L1St × List String :
         | some cur => priceMons1 seq e1 prevRec cur now
         | none => []
       let dpanic := if o = "ok" then [] else [s!"DIFF\t{seq}\tl1 begin blocker panicked"]
-      let (v2, outs) := finishL { v with s := s' } seq false true "ok" obs 0 pm
+      let (v2, outs) := finishL { v with s := s' } seq false true "ok" obs bo v.k pm
       (v2, dpanic ++ outs)
-    | _, _, _, _, _, _ => (v, [s!"BAD\t{seq}\tl1 tick"])
+    | _, _, _, _, _, _, _ => (v, [s!"BAD\t{seq}\tl1 tick"])
   | _ => (v, [s!"BAD\t{seq}\tunknown dutch.l1 line"])
 
 def handle (st : St) (seq : String) (f : List String) : St × List String :=
